@@ -102,6 +102,7 @@ fn slot_address(slot: usize) -> (usize, usize, bool) {
     match slot {
         1 => (0, 0, false), // dense weights, 2x3 matrix
         2 => (0, 0, true),  // dense bias, vector of 6
+        4 => (1, 0, false), // FIRST filter of the same convolution (its state lives next to slot 3's)
         _ => (1, 1, false), // second filter of a convolution, 1x2x3 kernel
     }
 }
@@ -148,7 +149,7 @@ fn run_history(case: &Value, class: &str, steps: &[(usize, i32)], seed: u64, rep
     let state_vars: Vec<String> = case["state"].as_array().unwrap().iter().map(|s| s.as_str().unwrap().to_string()).collect();
     let start: Vec<f32> = (0..N).map(|i| 0.5 - 0.2 * i as f32).collect();
     // expected: one environment per (slot, element)
-    let mut envs: Vec<Vec<Env>> = (0..4)
+    let mut envs: Vec<Vec<Env>> = (0..5)
         .map(|_| {
             (0..N)
                 .map(|i| {
@@ -165,12 +166,26 @@ fn run_history(case: &Value, class: &str, steps: &[(usize, i32)], seed: u64, rep
                 .collect()
         })
         .collect();
-    let mut values: Vec<Tensor> = (0..4).map(|s| layout(s.max(1), &start)).collect();
-    let mut own: Vec<usize> = vec![0; 4];
-    let mut own_hist: Vec<Vec<i32>> = vec![Vec::new(); 4];
+    let mut values: Vec<Tensor> = (0..5).map(|s| layout(s.max(1), &start)).collect();
+    let mut own: Vec<usize> = vec![0; 5];
+    let mut own_hist: Vec<Vec<i32>> = vec![Vec::new(); 5];
+    let model_has_slot4 = steps.iter().any(|(s, _)| *s == 4);
+    let mut shadow = layout(4, &start);
+    let mut shadow_k = 0usize;
     for (slot, stepnr) in steps.iter() {
-        let g: Vec<f32> = (0..N).map(|i| gradient(class, own[*slot], i, seed)).collect();
+        // (slot 4 -- the first filter of the layer whose second filter is slot 3 -- receives a gradient stream of its own:
+        // slots 1..3 share theirs so that equal histories can be compared across ranks)
+        let salt = if *slot == 4 { 0x5107_u64 } else { 0 };
+        let g: Vec<f32> = (0..N).map(|i| gradient(class, own[*slot], i, seed ^ salt)).collect();
         let mut gt = layout(*slot, &g);
+        // where the model's history has no slot 4, the neighbouring filter is stepped in the shadow of slot 3 (with its own
+        // gradients, on its own tensor): state kept for one slot never influences another, so nothing may change
+        if *slot == 3 && !model_has_slot4 {
+            let gs: Vec<f32> = (0..N).map(|i| -1.7 * gradient(if class == "vanishing" { "constant" } else { class }, shadow_k, i, seed ^ 0x5107)).collect();
+            let mut gst = layout(4, &gs);
+            let _ = guarded(|| opt.update(1, 0, false, *stepnr, &mut shadow, &mut gst));
+            shadow_k += 1;
+        }
         let (layer, filter, bias) = slot_address(*slot);
         let res = guarded(|| {
             let mut v = values[*slot].clone();
@@ -194,7 +209,7 @@ fn run_history(case: &Value, class: &str, steps: &[(usize, i32)], seed: u64, rep
         own_hist[*slot].push(*stepnr);
     }
     rep.checks += 1;
-    for slot in 1..=3 {
+    for slot in 1..=4 {
         if own[slot] == 0 {
             continue;
         }
